@@ -548,3 +548,141 @@ pub fn exh_main(args: &[String]) {
     }
     println!("STAT fails {}", out.fails);
 }
+
+// ------------------------------------------------------------------------------------------------ multi-file sequences (C01)
+/// tree part of a dump (elements, attributes, character data) with the root's schemaLocation normalised; the version is compared separately
+fn tree_part(d: &str) -> String {
+    let n = norm_schema_location(d);
+    let mut out = String::new();
+    for l in n.lines() {
+        if l.starts_with("V ") {
+            break;
+        }
+        out.push_str(l);
+        out.push('\n');
+    }
+    out
+}
+
+/// serialize `file` of `model`, load the text strictly into a fresh model: the version must be the file's version; returns the reloaded dump
+fn reload_of(file: &ArxmlFile, what: &str) -> Result<String, String> {
+    let want = file.version();
+    let text = match guard(|| file.serialize()) {
+        Ok(Ok(t)) => t,
+        Ok(Err(e)) => return Err(format!("what={} serialize-failed={}", what, err_str(&e).replace(' ', "_"))),
+        Err(_) => return Err(format!("what={} serialize-panic site={}", what, last_panic_site())),
+    };
+    match load(text.as_bytes(), true) {
+        LoadResult::Ok(l2) => {
+            if l2.file.version() != want {
+                let head: String = text.chars().skip_while(|c| *c != '\n').skip(1).take(140).collect();
+                return Err(format!(
+                    "what={} version-after-reload={} file.version()={} written-root=[{}]",
+                    what,
+                    l2.file.version().filename(),
+                    want.filename(),
+                    head.replace(' ', "_")
+                ));
+            }
+            Ok(dump_loaded(&l2).0)
+        }
+        LoadResult::Err(e) => Err(format!("what={} strict-reload-failed={} file.version()={}", what, err_str(&e).replace(' ', "_"), want.filename())),
+        LoadResult::Panic(s) => Err(format!("what={} reload-panic site={}", what, s)),
+    }
+}
+
+/// xml multifile <cases> <npairs> [--pair i j]
+/// Sequences over two strictly loadable documents a (version v1) and b (version v2 != v1) in ONE model:
+///   S1  load a, load b, serialize both              -> each text re-loads strictly with its file's version
+///   S2  load a, load b, remove_file(a), serialize b -> re-loads strictly as version v2 with the tree the model holds
+///   S3  load a, load b, a.set_version(v2) (if compatible), serialize both -> each re-loads with its file's version
+/// (implementation only; the Coq model is single-file)
+pub fn multifile_main(args: &[String]) {
+    let cases = read_cases(&args[0]);
+    let npairs: usize = args[1].parse().unwrap();
+    let only: Option<(usize, usize)> = args.iter().position(|a| a == "--pair").map(|p| (args[p + 1].parse().unwrap(), args[p + 2].parse().unwrap()));
+    let mut out = Out { fails: 0, stats: Default::default() };
+    // distinct strictly loadable plain documents with their version
+    let mut docs: Vec<(usize, AutosarVersion)> = Vec::new();
+    let mut seen: std::collections::HashSet<u64> = Default::default();
+    for (i, (_, bytes, tag)) in cases.iter().enumerate() {
+        if only.is_none() && tag != "valid" {
+            continue;
+        }
+        if !seen.insert(fnv(bytes)) {
+            continue;
+        }
+        if let LoadResult::Ok(l) = load(bytes, true) {
+            docs.push((i, l.file.version()));
+        }
+    }
+    let mut pairs: Vec<(usize, usize)> = Vec::new();
+    if let Some((i, j)) = only {
+        pairs.push((i, j));
+    } else {
+        let n = docs.len();
+        let mut k = 0usize;
+        while pairs.len() < npairs && k < n * 4 && n > 1 {
+            let a = (k * 7) % n;
+            let b = (k * 7 + 1 + (k * 13) % (n - 1)) % n;
+            k += 1;
+            if docs[a].1 != docs[b].1 {
+                pairs.push((docs[a].0, docs[b].0));
+            }
+        }
+    }
+    for (ia, ib) in pairs {
+        let (a, b) = (&cases[ia].1, &cases[ib].1);
+        out.count("pairs");
+        wd_enter(ia as u64);
+        for seq in ["S1", "S2", "S3"] {
+            let r = guard(|| -> Result<&'static str, String> {
+                let model = AutosarModel::new();
+                let (fa, _) = model.load_buffer(a, "a.arxml", true).map_err(|e| format!("skip:load-a:{}", err_str(&e)))?;
+                let (fb, _) = match model.load_buffer(b, "b.arxml", true) {
+                    Ok(x) => x,
+                    Err(_) => return Ok("merge-rejected"),
+                };
+                match seq {
+                    "S1" => {
+                        reload_of(&fa, "S1:serialize-a-of-two")?;
+                        reload_of(&fb, "S1:serialize-b-of-two")?;
+                    }
+                    "S2" => {
+                        model.remove_file(&fa);
+                        let cur = Loaded { model: model.clone(), file: fb.clone(), warnings: Vec::new() };
+                        let d_model = dump_loaded(&cur).0;
+                        let d_re = reload_of(&fb, "S2:remove-a-serialize-b")?;
+                        if tree_part(&d_model) != tree_part(&d_re) {
+                            return Err(format!("what=S2:tree-after-reload-differs {}", first_diff(&tree_part(&d_model), &tree_part(&d_re))));
+                        }
+                    }
+                    _ => {
+                        if fa.set_version(fb.version()).is_err() {
+                            return Ok("set_version-incompatible");
+                        }
+                        reload_of(&fa, "S3:set_version-a-serialize-a")?;
+                        reload_of(&fb, "S3:set_version-a-serialize-b")?;
+                    }
+                }
+                Ok("ok")
+            });
+            match r {
+                Ok(Ok(k)) => out.count(&format!("{}.{}", seq, k)),
+                Ok(Err(m)) => {
+                    if m.starts_with("skip:") {
+                        out.count(&format!("{}.skipped", seq));
+                    } else {
+                        out.fail("c01.multifile", ia, "s", &format!("pair={},{}", ia, ib), &m);
+                    }
+                }
+                Err(_) => out.fail("c01.multifile", ia, "s", &format!("pair={},{}", ia, ib), &format!("what={}:panic site={}", seq, last_panic_site())),
+            }
+        }
+        wd_leave();
+    }
+    for (k, v) in out.stats.iter() {
+        println!("STAT {} {}", k, v);
+    }
+    println!("STAT fails {}", out.fails);
+}
